@@ -4,6 +4,7 @@ mod cw1;
 mod cw20;
 mod cw3;
 mod cw4;
+mod ics20;
 mod world;
 mod rng;
 mod shard;
@@ -37,6 +38,7 @@ fn main() {
         "cw1" => run_cw1(mode, seed, count, &out, shard_size, &args),
         "cw4" => run_cw4(mode, seed, count, &out, shard_size, &args),
         "cw3" => run_cw3(mode, seed, count, &out, shard_size, &args),
+        "ics20" => run_ics20(mode, seed, count, &out, shard_size, &args),
         _ => {
             eprintln!("unknown family {}", family);
             std::process::exit(2);
@@ -207,6 +209,38 @@ fn run_cw3(mode: &str, seed: u64, count: usize, out: &PathBuf, shard_size: usize
     let stats = serde_json::json!({
         "family": "cw3", "mode": mode, "seed": seed, "cases": rans.len(), "steps": steps,
         "shards": names, "classes": classes, "evals": ["C03", "C05", "C06", "C15"],
+    });
+    fs::write(out.join("stats.json"), serde_json::to_string_pretty(&stats).unwrap()).unwrap();
+    println!("{} traces, {} steps, {} shards, {} classes", rans.len(), steps, names.len(), classes.len());
+}
+
+fn run_ics20(mode: &str, seed: u64, count: usize, out: &PathBuf, shard_size: usize, args: &[String]) {
+    let max_steps: usize = arg(args, "--steps").and_then(|s| s.parse().ok()).unwrap_or(30);
+    let rans: Vec<ics20::Ran> = match mode {
+        "gen" => (0..count as u64).map(|c| ics20::generate(seed, c, max_steps)).collect(),
+        "replay" => {
+            let f = arg(args, "--file").expect("--file");
+            let text = fs::read_to_string(f).unwrap();
+            text.lines()
+                .filter(|l| l.trim_start().starts_with('{'))
+                .map(|l| ics20::replay(&serde_json::from_str::<ics20::Trace>(l).unwrap()))
+                .collect()
+        }
+        _ => panic!("mode"),
+    };
+    let items: Vec<String> = rans.iter().map(ics20::to_coq).collect();
+    let fns: Vec<String> = ["11", "12", "18"].iter().map(|p| format!("check_traces {}", p)).collect();
+    let names = shard::write_list_shards(out, "ics20", ics20::COQ_HEADER, "trace", &fns, &items, shard_size);
+    let mut jf = fs::File::create(out.join("cases.jsonl")).unwrap();
+    let mut steps = 0usize;
+    for r in &rans {
+        writeln!(jf, "{}", serde_json::to_string(&r.trace).unwrap()).unwrap();
+        steps += r.recs.len();
+    }
+    let classes = ics20::class_counts(&rans);
+    let stats = serde_json::json!({
+        "family": "ics20", "mode": mode, "seed": seed, "cases": rans.len(), "steps": steps,
+        "shards": names, "classes": classes, "evals": ["C11", "C12", "C18"],
     });
     fs::write(out.join("stats.json"), serde_json::to_string_pretty(&stats).unwrap()).unwrap();
     println!("{} traces, {} steps, {} shards, {} classes", rans.len(), steps, names.len(), classes.len());
